@@ -2,11 +2,14 @@
 (* EXPLORER for C12, linked statics: StaticInstances::get() of packages/linked/src/static_instances.rs as its real
    steps.  The named yield points of hook H5 are
 
-     Variant = "fixed" (the code as it is now)
+     Variant = "fixed" (the code as it is now: the registry holds one cell - an Arc<OnceLock<Family>> - per static)
        static.local   look up the thread-local registry; hit: make the instance, return              [thread-local]
-       static.rcheck  read lock: is the family registered?  (try_initialize_global_registry)          [shared]
-       static.init    RUN THE INITIALISER with no lock held - it may call get() on other statics      [thread-local]
-       static.wlock   write lock; insert if vacant (else the candidate loses, dropped after unlock)   [shared]
+       static.rcheck  read lock: does the static's cell exist?                                       [shared]
+       static.wlock   write lock: insert an empty cell if there is none; unlock                      [shared]
+       static.once    OnceLock::get_or_init on the cell: set -> go on; being initialised by another
+                      thread -> blocked; empty -> this thread becomes the cell's initialiser         [shared]
+       static.init    RUN THE INITIALISER holding only the cell - it may call get() on other statics [thread-local]
+       static.set     the cell is set to the family of the instance the initialiser produced         [shared]
        static.rlock   read lock; clone the family; unlock; cache it thread-locally; make the instance [shared]
      Variant = "orig" (the code before the fix for finding S6a; kept to show what the machinery reports on it)
        static.local / static.wlock (write lock; vacant?) / static.init (initialiser runs UNDER the write lock) /
@@ -30,9 +33,9 @@ Threads == 0 .. NT - 1
 Statics == 1 .. NS
 NoThread == NT
 
-VARIABLES deps, prog0, prog, tl, stack, wr, registry, cache, nfam, j, hist
-vars == <<deps, prog0, prog, tl, stack, wr, registry, cache, nfam, j, hist>>
-View == <<deps, prog0, prog, tl, stack, wr, registry, cache, nfam, j>>
+VARIABLES deps, prog0, prog, tl, stack, wr, registry, cell, cache, nfam, j, hist
+vars == <<deps, prog0, prog, tl, stack, wr, registry, cell, cache, nfam, j, hist>>
+View == <<deps, prog0, prog, tl, stack, wr, registry, cell, cache, nfam, j>>
 
 Progs == UNION { [1..n -> Statics] : n \in 1..MaxProg }
 Min(S) == CHOOSE x \in S : \A y \in S : x <= y
@@ -46,7 +49,8 @@ Init ==
     /\ tl = [t \in Threads |-> "start"]
     /\ stack = [t \in Threads |-> <<>>]
     /\ wr = NoThread
-    /\ registry = [s \in Statics |-> 0]
+    /\ registry = [s \in Statics |-> 0]           \* family registered / held by the set cell (0: none)
+    /\ cell = [s \in Statics |-> "absent"]      \* fixed: absent | empty | running | set
     /\ cache = [t \in Threads |-> [s \in Statics |-> 0]]
     /\ nfam = [s \in Statics |-> 0]
     /\ j = JInit
@@ -55,7 +59,7 @@ Init ==
 SetTop(stk, f) == [stk EXCEPT ![Len(stk)] = f]
 Pop(stk) == SubSeq(stk, 1, Len(stk) - 1)
 FirstShared == IF Variant = "orig" THEN "wlock" ELSE "rcheck"
-AfterInit == IF Variant = "orig" THEN "insert" ELSE "wlock"
+AfterInit == IF Variant = "orig" THEN "insert" ELSE "set"
 
 (* Thread-local computation.  L = [stack, prog, cache, j, nfam, log, done] is thread t's private view; the operators
    run t forward to its next shared step.                                                                         *)
@@ -103,7 +107,7 @@ WithTop(L, f) == [L EXCEPT !.stack = SetTop(@, f)]
 Begin(t) ==
     /\ tl[t] = "start"
     /\ Commit(t, Enter(t, Local(t, <<"start", "op:get">>), Head(prog[t])))
-    /\ UNCHANGED <<deps, prog0, wr, registry>>
+    /\ UNCHANGED <<deps, prog0, wr, registry, cell>>
 
 \* orig: write lock; occupied: unlock at once; vacant: the initialiser runs holding it
 WLockOrig(t) ==
@@ -114,30 +118,45 @@ WLockOrig(t) ==
             /\ UNCHANGED wr
        ELSE /\ Commit(t, ContinueInit(t, WithTop(Local(t, <<"static.wlock", "static.init">>), [Top(t) EXCEPT !.todo = deps[Top(t).s]])))
             /\ wr' = t
-    /\ UNCHANGED <<deps, prog0, registry>>
+    /\ UNCHANGED <<deps, prog0, registry, cell>>
 
 InsertOrig(t) ==
     /\ Variant = "orig" /\ At(t, "insert")
     /\ registry' = [registry EXCEPT ![Top(t).s] = Top(t).fam]
     /\ wr' = NoThread
     /\ Commit(t, WithTop(Local(t, <<"static.insert">>), [Top(t) EXCEPT !.pc = "rlock"]))
-    /\ UNCHANGED <<deps, prog0>>
+    /\ UNCHANGED <<deps, prog0, cell>>
 
-\* fixed: read lock, registered?  no: the initialiser runs with no lock held
+\* fixed: read lock: is there a cell for the static?
 RCheck(t) ==
     /\ Variant = "fixed" /\ At(t, "rcheck")
-    /\ wr = NoThread
-    /\ IF registry[Top(t).s] # 0
-       THEN Commit(t, WithTop(Local(t, <<"static.rcheck">>), [Top(t) EXCEPT !.pc = "rlock"]))
-       ELSE Commit(t, ContinueInit(t, WithTop(Local(t, <<"static.rcheck", "static.init">>), [Top(t) EXCEPT !.todo = deps[Top(t).s]])))
-    /\ UNCHANGED <<deps, prog0, wr, registry>>
+    /\ Commit(t, WithTop(Local(t, <<"static.rcheck">>), [Top(t) EXCEPT !.pc = IF cell[Top(t).s] = "absent" THEN "wlock" ELSE "once"]))
+    /\ UNCHANGED <<deps, prog0, wr, registry, cell>>
 
-\* fixed: write lock; insert if vacant; unlock (one critical section, no user code inside)
+\* fixed: write lock; insert an empty cell unless somebody did; unlock (one critical section, no user code inside)
 WLockFixed(t) ==
     /\ Variant = "fixed" /\ At(t, "wlock")
-    /\ wr = NoThread
-    /\ registry' = IF registry[Top(t).s] = 0 THEN [registry EXCEPT ![Top(t).s] = Top(t).fam] ELSE registry
-    /\ Commit(t, WithTop(Local(t, <<"static.wlock">>), [Top(t) EXCEPT !.pc = "rlock"]))
+    /\ cell' = IF cell[Top(t).s] = "absent" THEN [cell EXCEPT ![Top(t).s] = "empty"] ELSE cell
+    /\ Commit(t, WithTop(Local(t, <<"static.wlock">>), [Top(t) EXCEPT !.pc = "once"]))
+    /\ UNCHANGED <<deps, prog0, wr, registry>>
+
+\* fixed: OnceLock::get_or_init - blocked while another thread (or, in a cycle, this one) runs the initialiser
+Once(t) ==
+    /\ Variant = "fixed" /\ At(t, "once")
+    /\ cell[Top(t).s] # "running"
+    /\ IF cell[Top(t).s] = "set"
+       THEN /\ Commit(t, WithTop(Local(t, <<"static.once">>), [Top(t) EXCEPT !.pc = "rlock"]))
+            /\ UNCHANGED cell
+       ELSE /\ Commit(t, ContinueInit(t, WithTop(Local(t, <<"static.once", "static.init">>), [Top(t) EXCEPT !.todo = deps[Top(t).s]])))
+            /\ cell' = [cell EXCEPT ![Top(t).s] = "running"]
+    /\ UNCHANGED <<deps, prog0, wr, registry>>
+
+\* fixed: the initialiser is done, the cell is set
+SetCell(t) ==
+    /\ Variant = "fixed" /\ At(t, "set")
+    /\ registry' = [registry EXCEPT ![Top(t).s] = Top(t).fam]
+    /\ cell' = [cell EXCEPT ![Top(t).s] = "set"]
+    /\ Commit(t, WithTop(Local(t, <<"static.set">>), [Top(t) EXCEPT !.pc = "rlock"]))
     /\ UNCHANGED <<deps, prog0, wr>>
 
 \* read lock; clone the family; unlock; cache; make the instance; return
@@ -150,9 +169,9 @@ RLock(t) ==
            L == Local(t, <<"static.rlock">>) IN
        Commit(t, Return(t, [L EXCEPT !.stack = Pop(@), !.cache[s] = f,
                                      !.j = JStep(@, [ev |-> "get_end", t |-> t, s |-> s, fam |-> f])]))
-    /\ UNCHANGED <<deps, prog0, wr, registry>>
+    /\ UNCHANGED <<deps, prog0, wr, registry, cell>>
 
-Step(t) == Begin(t) \/ WLockOrig(t) \/ InsertOrig(t) \/ RCheck(t) \/ WLockFixed(t) \/ RLock(t)
+Step(t) == Begin(t) \/ WLockOrig(t) \/ InsertOrig(t) \/ RCheck(t) \/ WLockFixed(t) \/ Once(t) \/ SetCell(t) \/ RLock(t)
 
 Done == \A t \in Threads : tl[t] = "done"
 
